@@ -37,6 +37,8 @@ def run(ctx):
   rule_isqrt_small(ctx)
   rule_sieve(ctx)
   rule_linalg(ctx)
+  rule_uniformsum(ctx)
+  ctx.expect("R-C19-UNIFORMSUM", 1, "UniformSumCdf")
   ctx.expect("R-C19-LINALG", 6, "back-substitution, solve_right, elimination step, exact division, sweeps, row moves")
   ctx.expect("R-C19-SIEVE", 1, "Sieve")
   ctx.expect("R-C19-PSEUDOAVG", 1, "PseudoAverage")
@@ -1345,3 +1347,93 @@ def rule_linalg(ctx):
   if pops[pa] != {m[0] for m in moves[pa]} or pops[pb] != {m[0] for m in moves[pb]}:
     probs.append("a row is removed without being re-inserted")
   ctx.record(R, f.where, "row moves on (a | b)", not probs, "; ".join(probs) or "every a.insert(pos, a.pop(r)) has its b.insert(pos, b.pop(r)): %d distinct moves" % len(moves[pa]))
+
+
+# ---------------------------------------------------------------------------------------------------------------- Irwin-Hall distribution
+def rule_uniformsum(ctx):
+  """'the uniform-sum distribution equals its exact definition within stated tolerance': F(n, x) = 1/n! sum_{k=0}^{floor x} (-1)^k C(n, k) (x - k)^n.
+  Decided on the structure of UniformSumCdf: F = 0 for x <= 0; the reflection 1 - F(n, n - x) only for x > n/2; the normal approximation with mean n/2
+  and variance n/12; the series with sign (-1)^k carried as sign -> -sign from 1, C(n, k) carried as binom -> binom (n - k) // (k + 1) from 1, summand
+  sign * binom / n! * (x - k)^n for k = 0 .. floor(x), started at 0, and the accumulated value returned."""
+  from pcstatic import ratfun
+  R = "R-C19-UNIFORMSUM"
+  repo = ctx.repo
+  U = "randomness_tests.util"
+  f, w = walk(repo, U, "UniformSumCdf")
+  n, x = P("param", f.params()[0]), P("param", f.params()[1])
+  probs = []
+  rets = [e for e in w.events if e.kind == "return" and e.node is not None]
+  kinds = {"zero": 0, "reflect": 0, "normal": 0, "series": 0}
+  self_call = "lit('%s:UniformSumCdf')" % U
+  for e in rets:
+    v = e.data["value"]
+    fs = e.state.facts
+    if isinstance(v, Const) and v.v == 0 or isinstance(v, Poly) and v.is_zero():
+      kinds["zero"] += 1
+      if not has_rel(fs, "<=", x):
+        probs.append("0 is returned on a path where x <= 0 is not established")
+      continue
+    vp = as_poly(v) if isinstance(v, (Poly, Const)) else None
+    calls = [a_ for a_ in vp.all_atoms() if a_.kind == "call"] if vp is not None else []
+    if any(repr(a_.args[0]) == self_call for a_ in calls):
+      kinds["reflect"] += 1
+      want = P("lit", "1.0") - sym.mk("call", P("lit", "%s:UniformSumCdf" % U), n, n - x)
+      want2 = Poly.const(1) - sym.mk("call", P("lit", "%s:UniformSumCdf" % U), n, n - x)
+      if not ((vp - want).is_zero() or (vp - want2).is_zero()):
+        probs.append("the reflection is %r, not 1 - F(n, n - x)" % (vp,))
+      if not (has_rel(fs, "<", n - x * 2) or has_rel(fs, "<", _td19(n, 2) - x)):
+        probs.append("the reflection is used on a path where x > n/2 is not established (it would recurse for ever at x <= n/2)")
+      continue
+    if any(repr(a_.args[0]) == "lit('%s:NormalCdf')" % U for a_ in calls):
+      kinds["normal"] += 1
+      want = sym.mk("call", P("lit", "%s:NormalCdf" % U), x, sym.mk("tdiv", n, Poly.const(2)), sym.mk("tdiv", n, Poly.const(12)))
+      if not (vp - want).is_zero():
+        probs.append("the normal approximation is %r, not NormalCdf(x, n/2, n/12)" % (vp,))
+      lower = [(_rel(fc)) for fc in fs if _rel(fc) is not None and _rel(fc)[0] in ("<", "<=")]
+      if not any((d_ + n).as_int() is not None and (d_ + n).as_int() >= 12 for r_, d_ in lower):
+        probs.append("the normal approximation is used without a lower bound on n")
+      continue
+    kinds["series"] += 1
+    loops = [li for li in w.loop_info.values() if li["visits"] and any(isinstance(v_.get("after_env", {}).get(nm), Poly) and v_["after_env"][nm] == vp for v_ in li["visits"] for nm in v_.get("after_env", {}))]
+    if len(loops) != 1:
+      probs.append("the series value returned is not accumulated by one loop")
+      continue
+    li = loops[0]
+    vis = li["visits"][0]
+    k = as_poly(vis["k"])
+    rg = _range_of(vis)
+    if rg is None or not (rg[0].is_zero() and rg[2].as_int() == 1 and (rg[1] - sym.mk("math.floor", x) - 1).is_zero()):
+      probs.append("the series does not run over k = 0 .. floor(x)")
+    accn = [nm for nm, av in vis["after_env"].items() if isinstance(av, Poly) and av == vp]
+    head = vis["head"].env
+    paths = [bp for bp in li["body_paths"] if bp[4] is vis]
+    if not paths or any(bp[0] != "fall" for bp in paths):
+      probs.append("the series loop is left early")
+      continue
+    st_ = paths[0][2]
+    delta = as_poly(st_.env[accn[0]]) - as_poly(head[accn[0]])
+    p0 = vis["pre_env"].get(accn[0])
+    if not (isinstance(p0, Const) and p0.v == 0 or isinstance(p0, Poly) and p0.is_zero()):
+      probs.append("the series does not start at 0")
+    # carried sign and binomial: the loop-carried symbols of the summand
+    carried = {nm: head[nm] for nm in vis["after_env"] if isinstance(head.get(nm), Poly) and head[nm].as_atom() is not None and head[nm].as_atom().kind == "sym"
+               and head[nm].as_atom() in delta.all_atoms() and nm != accn[0] and head[nm] != k}
+    sign = [nm for nm, hv in carried.items() if isinstance(st_.env.get(nm), Poly) and (st_.env[nm] + hv).is_zero()]
+    binom = [nm for nm, hv in carried.items() if isinstance(st_.env.get(nm), Poly) and (st_.env[nm] - sym.mk("fdiv", hv * (n - k), k + 1)).is_zero()]
+    if len(sign) != 1 or not (isinstance(vis["pre_env"].get(sign[0]), (Poly, int)) and as_poly(vis["pre_env"][sign[0]]).as_int() == 1):
+      probs.append("the sign (-1)^k is not carried as s -> -s starting from 1")
+    if len(binom) != 1 or not (isinstance(vis["pre_env"].get(binom[0]), (Poly, int)) and as_poly(vis["pre_env"][binom[0]]).as_int() == 1):
+      probs.append("the binomial C(n, k) is not carried as b -> b (n - k) // (k + 1) starting from 1")
+    if len(sign) == 1 and len(binom) == 1:
+      want = sym.mk("tdiv", carried[sign[0]] * carried[binom[0]] * sym.mk("pow", x - k, n), sym.mk("math.factorial", n))
+      okt, d_ = ratfun.equal_terms(delta, want)
+      if not okt:
+        probs.append("the summand is %r, not (-1)^k C(n, k) (x - k)^n / n!" % (delta,))
+  for kd in ("zero", "reflect", "series"):
+    if kinds[kd] == 0:
+      probs.append("no %s branch" % {"zero": "F = 0 for x <= 0", "reflect": "reflection", "series": "series"}[kd])
+  ctx.record(R, f.where, "Irwin-Hall CDF", not probs, "; ".join(sorted(set(probs))) or "0 for x <= 0; 1 - F(n, n - x) for x > n/2; NormalCdf(x, n/2, n/12) above a bound on n; else 1/n! sum (-1)^k C(n,k) (x-k)^n, k = 0..floor(x)")
+
+
+def _td19(a, b):
+  return sym.mk("tdiv", as_poly(a), Poly.const(b))
